@@ -928,6 +928,11 @@ static std::string run_op(const std::string& op, Toks& tk, ContentPtr& result) {
       else elem = hex(e.get()->type(ts).get()->tostring());
     }
     std::pair<int64_t, int64_t> mm = x.get()->minmax_depth();
+    std::pair<bool, int64_t> bd = x.get()->branch_depth();
+    std::pair<bool, int64_t> bdf = f.get()->branch_depth();
+    std::pair<int64_t, int64_t> mmf = f.get()->minmax_depth();
+    g_extra = std::string(bd.first ? "1" : "0") + " " + std::to_string(bd.second) + " " + (bdf.first ? "1" : "0") + " " + std::to_string(bdf.second)
+              + " " + std::to_string(mmf.first) + " " + std::to_string(mmf.second) + " " + std::to_string(f.get()->purelist_depth());
     out << "(" << hex(ta.get()->tostring()) << "," << hex(tf.get()->tostring()) << ","
         << (ta.get()->equal(tf, true) ? "True" : "False") << "," << hex(tsl.get()->tostring()) << "," << elem << ","
         << x.get()->purelist_depth() << "," << mm.first << "," << mm.second << ","
